@@ -73,3 +73,20 @@ Theorem C14_subcache_never_shares : forall H,
   cache_get H c fs' k1 = cache_get H c fs k1.
 Proof. exact subcache_never_shares. Qed.
 Print Assumptions C14_subcache_never_shares.
+
+(* two sub-caches of one cache whose names differ - single names, names of several components ('models/v1' and
+   'features/v1'), names that look like a bucket - use different files and never see each other's entries *)
+Theorem C14_sibling_subcaches_disjoint : forall H,
+  (forall s, List.length (H s) = 64 /\ ~ In "/"%char (H s)) ->
+  forall c n1 n2 k1 k2, n1 <> n2 -> cpath H (subcache c n1) k1 <> cpath H (subcache c n2) k2.
+Proof. exact sibling_subcaches_disjoint. Qed.
+Print Assumptions C14_sibling_subcaches_disjoint.
+
+Theorem C14_sibling_subcaches_never_share : forall H,
+  (forall s, List.length (H s) = 64 /\ ~ In "/"%char (H s)) ->
+  forall c n1 n2 fs k1 k2 comp force fs' out n,
+  n1 <> n2 ->
+  cache_get_or_compute H (subcache c n2) fs k2 comp force = (fs', out, n) ->
+  cache_get H (subcache c n1) fs' k1 = cache_get H (subcache c n1) fs k1.
+Proof. exact sibling_subcaches_never_share. Qed.
+Print Assumptions C14_sibling_subcaches_never_share.
